@@ -59,7 +59,8 @@ func checkInstance(c InstCase, o *vcore.Obs) error {
 	h := b.Handle("x")
 	if c.Faults {
 		h.SetPlan("list", []string{fault.Fail, fault.OK, fault.Fail})
-		h.SetPlan("load", []string{fault.Fail, fault.NotExist})
+		// (a streak of failing downloads, hitting the downloaders of several peers at the same time)
+		h.SetPlan("load", []string{fault.Fail, fault.NotExist, fault.Fail, fault.Fail, fault.OK, fault.Fail, fault.Fail, fault.Fail, fault.OK, fault.Fail})
 		h.SetPlan("store", []string{fault.Fail, fault.AppliedError})
 		h.SetPlan("delete", []string{fault.Fail})
 	}
